@@ -34,6 +34,25 @@ func simSetSiteDelay(K, k uint32, lifo bool)
 //go:linkname simDeferrals runtime.simDeferrals
 func simDeferrals() uint64
 
+//go:linkname simSpinSleepers runtime.simSpinSleepers
+func simSpinSleepers() (n int32, end int64)
+
+// SpinSleepers reports how many goroutines are inside a virtual-time sleep
+// injected by the runtime's spin guard (they are runnable work that was merely
+// charged time) and how long from now the latest of them lasts. A quiescence
+// oracle must wait until there is none.
+func (e *Env) SpinSleepers() (int, time.Duration) {
+	n, end := simSpinSleepers()
+	if n <= 0 {
+		return 0, 0
+	}
+	d := time.Duration(end - time.Now().UnixNano()) // both on the bubble's clock
+	if d < 0 {
+		d = 0
+	}
+	return int(n), d
+}
+
 //go:linkname simSetPlayback runtime.simSetPlayback
 func simSetPlayback(p *uint8, n int)
 
